@@ -541,8 +541,9 @@ def run(fx, chk, tier):
         fn = fx.fns[fid]
         seen = {}
         for L in ls:
-            base = "%s|%s" % (fn_short(fid), L.kind)
-            # ordinal among loops of the same class inside one function, in CFG order (no line numbers in keys)
+            rg = _traf_region(body_of(fn), L.head)
+            base = "%s|%s%s" % (fn_short(fid), L.kind, "@" + rg if rg else "")
+            # the side of the `trafs.is_empty()` split the loop is on, then the ordinal among loops of the same class inside one function, in CFG order (no line numbers in keys)
             n = seen.get(base, 0)
             seen[base] = n + 1
             key = base if n == 0 else "%s#%d" % (base, n)
@@ -613,14 +614,14 @@ def run(fx, chk, tier):
         for L in ls:
             if L.kind == "RANGE-CONST":
                 continue
-            key = "%s|%s" % (fn_short(fid), L.kind)
+            region = _traf_region(body, L.head)
+            key = "%s|%s%s" % (fn_short(fid), L.kind, "@" + region if region else "")
             nb, nt = LP.driver_next_call(body, L, ls)
             elem_root = nt["dest"]["l"] if nt is not None else None
             probs = []
             for o in L.nested:
                 if o.kind in MEM and not derives_from(body, loop_iter_local(body, o, ls), elem_root):
                     probs.append(("nested", site_of(fn, o.line), "a second in-memory loop over a collection that does not belong to the outer loop's element"))
-            region = _traf_region(body, L.head)
             for b, t in LP.calls_in(body, L.blocks):
                 p = callee_path(t["callee"])
                 if mem_depth.get(p) and mem_in_region(p, region):
